@@ -23,6 +23,20 @@ Two observations (DESIGN.md section 4, C04):
                 parameters next to the conjunction of the reference predicates evaluated by rustc
                 itself on the same assignment, and a value is formatted and compared with plain
                 `format!` / the std `Formatter::debug_*` builders using the same literal.
+                A small second crate ("neg") holds inputs that must NOT compile (`{1}` with a single
+                argument) and one or two fixed witnesses per known defect.
+
+Known defects of the tree this monitor was written against (each is matched by a predictive model: the
+observed where-clause must equal the reference minus exactly the predicates the defect drops, or the
+fixed witness must fail with exactly the expected rustc error; anything else is an ordinary violation):
+  known:display-enum-level-bound-dropped            `#[display(bound(..))]` on an enum is ignored (display.rs expand_enum)
+  known:display-bound-without-own-format-dropped    `bound(..)` on a struct/variant without its own format is ignored
+                                                    (display.rs generate_bounds chains the user bounds only in the `Some(attr)` arm)
+  known:named-field-underscore-index                a NAMED field called `_0` gets no bound (mod.rs bounded_types treats `_<n>` as positional)
+  known:debug-field-attr-on-concrete-field          derive(Debug): a field attribute on a parameter-free field that mentions a generic
+                                                    field yields no bound (debug.rs generate_bounds returns early on the host field's type)
+  known:ref-field-bound-captures-sibling            `&'a T: X` next to `T: X`: the body does not borrow-check (rustc resolves `&'_ T: X`
+                                                    through the where-clause `&'a T: X`); compile-only, the where-clause is the documented one
 """
 import itertools
 import random
@@ -46,10 +60,11 @@ FMTPATH = "derive_more::core::fmt::"
 
 # known defects of the unchanged tree (see the final report of the C04 monitor); every one is a
 # predictive model: "these reference predicates, and only these, are absent"
-D_BOUND = "known:display-bound-needs-own-format"
+D_BOUND_E = "known:display-enum-level-bound-dropped"
+D_BOUND_C = "known:display-bound-without-own-format-dropped"
 D_US0 = "known:named-field-underscore-index"
 D_HOST = "known:debug-field-attr-on-concrete-field"
-DEFECTS = (D_BOUND, D_US0, D_HOST)
+DEFECTS = (D_BOUND_E, D_BOUND_C, D_US0, D_HOST)
 # sufficiency-only defect (the where-clause is the documented one, rustc then rejects the body)
 D_REF = "known:ref-field-bound-captures-sibling"
 
@@ -68,6 +83,7 @@ GFORMS = {
     "assoc": ("<{P} as Tr>::Assoc", S_ALL, True),
     "fnptr": ("fn({P}) -> u8", frozenset(["Debug", "Pointer"]), True),
     "fn2": ("fn({P}) -> {Q}", frozenset(["Debug", "Pointer"]), True),
+    "fnret": ("fn(u8) -> {P}", frozenset(["Debug", "Pointer"]), True),
     "boxdyn": ("Box<dyn Tr2<{P}>>", frozenset(["Debug", "Display", "Pointer"]), True),
     "phantom": ("::core::marker::PhantomData<{P}>", S_DBG, True),
     # expansion-only forms (never compiled): the rest of the type grammar the property quantifies over
@@ -83,7 +99,7 @@ GFORMS = {
     "proj": ("{P}::Assoc", S_ALL, False),
     "refmut": ("&'a mut {P}", S_ALL, False),
     "fnref": ("fn(&{P})", S_ALL, False),
-    "fnret": ("fn(u8) -> {P}", S_ALL, False),
+
     "dynplus": ("Box<dyn Tr2<{P}> + Send + 'a>", S_ALL, False),
     "assocbind": ("Box<dyn Iterator<Item = {P}>>", S_ALL, False),
     "nestassoc": ("Option<<{P} as Tr>::Assoc>", S_ALL, False),
@@ -281,7 +297,7 @@ def usize_arg(rng, fields):
     return Arg(rng.choice(["3", "7", "0", "12"]), "uszl", None, S_INT)
 
 
-def gen_fmt(rng, fields, compiled, targetable=None, prefer=None, allow_bound=True, variant=None, maxph=4):
+def gen_fmt(rng, fields, compiled, targetable=None, prefer=None, allow_bound=True, variant=None, maxph=4, own=None):
     """variant: None | "must" (shared wrapping format: `{_variant}` is used at least once, and `_variant`
     may also be passed as an argument)."""
     fm = Fmt()
@@ -295,6 +311,12 @@ def gen_fmt(rng, fields, compiled, targetable=None, prefer=None, allow_bound=Tru
     if not direct_pool:
         kinds_w = ["imp"] * 3 + ["exp", "alias", "imp_star"]
     kinds = [rng.choice(kinds_w) for _ in range(rng.randint(1, maxph))]
+    # the literals people write most: one bare placeholder and nothing else (`"{_0}"`, `"{}"`, `"{x:?}"`);
+    # these are the ones the derive turns into a direct `Trait::fmt` call
+    simple = variant is None and rng.random() < 0.12
+    if simple:
+        kinds = [rng.choice([k for k in kinds_w if not k.endswith("_star")])]
+        fm.feat.add("bare-literal")
     if variant == "must":
         kinds.insert(rng.randrange(len(kinds) + 1), "variant")
 
@@ -367,7 +389,8 @@ def gen_fmt(rng, fields, compiled, targetable=None, prefer=None, allow_bound=Tru
         fm.feat.add("$alias")
         return "%s$" % a.alias
 
-    pieces = [rng.choice(TEXTS)]
+    texts = [""] if simple else TEXTS
+    pieces = [rng.choice(texts)]
     counter = 0
     for k in kinds:
         site = k
@@ -419,7 +442,9 @@ def gen_fmt(rng, fields, compiled, targetable=None, prefer=None, allow_bound=Tru
         else:
             allowed = sorted(arg.allowed) if (compiled or arg.kind != "field") else list(ALL9)
             trait = rng.choice(allowed)
-            if rng.random() < 0.45 or star:
+            if simple and own in allowed and rng.random() < 0.5:
+                trait = own
+            if (rng.random() < 0.45 and not simple) or star:
                 if rng.random() < 0.35:
                     spec += rng.choice(["<", "^", ">", "*<", "_>", "\u00e9^", "0>"])
                 if rng.random() < 0.2:
@@ -443,12 +468,12 @@ def gen_fmt(rng, fields, compiled, targetable=None, prefer=None, allow_bound=Tru
                         spec += "." + count_ref()
             spec += rng.choice(TYCH[trait])
         ws = ""
-        if arg.kind != "variant" and rng.random() < 0.12 and (argtxt or spec):
+        if arg.kind != "variant" and not simple and rng.random() < 0.12 and (argtxt or spec):
             ws = rng.choice([" ", "  ", "\t"])
             fm.feat.add("ws")
         colon = ":" + spec if (spec or (arg.kind != "variant" and rng.random() < 0.1)) else ""
         pieces.append("{" + argtxt + colon + ws + "}")
-        pieces.append(rng.choice(TEXTS))
+        pieces.append(rng.choice(texts))
         if arg.kind == "field":
             fm.formatted.append((arg.fi, trait, site))
         elif arg.kind == "variant":
@@ -603,8 +628,29 @@ def add_pred(it, lhs, rhs, origin, site, fmt):
     e["sites"].add(site)
 
 
+# Set to True if the derive is changed to bound the referent of a reference field (`T: Display` instead of
+# `&'a T: Display`; equivalent for every trait but Pointer and the obvious repair of D_REF).  The documented
+# form (display.md/debug.md list `&'a T1: Pointer`, `Vec<T3>: Debug`) is the field type itself.
+PEEL_REFS = False
+
+
+def add_bound(it, ty, trait, origin, site):
+    if PEEL_REFS and trait != "Pointer":
+        while True:
+            m = re.match(r"^&\s*(?:'\w+\s+)?(?:mut\s+)?(.*)$", ty)
+            if not m:
+                break
+            ty = m.group(1)
+    add_pred(it, ty, FMTPATH + trait, origin, site, True)
+
+
 def add_fmt_preds(it, c, fm, fields, origin, sitepfx, fieldmap=None):
     """Reference predicates of one format attribute interpreted over `fields`."""
+    for x in fm.feat:
+        if x in (".*", "ws", "shadow", "kw", "expr-bound", "expr-free", "bare-literal"):
+            it.feat.add(x)
+        elif x.startswith("$"):
+            it.feat.add("$")
     for (fi, tr, site) in fm.formatted:
         f = fields[fieldmap[fi]] if fieldmap is not None else fields[fi]
         if not f.mentions:
@@ -612,7 +658,7 @@ def add_fmt_preds(it, c, fm, fields, origin, sitepfx, fieldmap=None):
         o = origin
         if o == "ok" and c.kind == "named" and re.match(r"^_\d+$", f.lname):
             o = D_US0
-        add_pred(it, f.ty, FMTPATH + tr, o, sitepfx + site, True)
+        add_bound(it, f.ty, tr, o, sitepfx + site)
 
 
 def finish_generics(it, rng):
@@ -677,12 +723,12 @@ def gen_display_item(rng, derive, compiled, defect=None):
             it.conts = [c]
             f = fields[0]
             if f.mentions:
-                add_pred(it, f.ty, FMTPATH + derive, "ok", "delegate", True)
+                add_bound(it, f.ty, derive, "ok", "delegate")
             it.feat.add("delegate")
-            if defect == D_BOUND:
+            if defect == D_BOUND_C:
                 c.bounds = [extra_bound(rng, sorted(f.mentions) or ["T0"])] if f.mentions else []
                 for b in c.bounds:
-                    add_pred(it, b[0], b[1], D_BOUND, "user-bound", "fmt::" in b[1])
+                    add_pred(it, b[0], b[1], D_BOUND_C, "user-bound", "fmt::" in b[1])
         else:
             n = rng.randint(1, 4)
             fields = mk_fields(rng, params, compiled, named, n, us0=(defect == D_US0 and named))
@@ -690,7 +736,7 @@ def gen_display_item(rng, derive, compiled, defect=None):
             tg = None
             if defect == D_US0 and named:
                 tg = [0]
-            c.fmt = gen_fmt(rng, fields, compiled, targetable=tg)
+            c.fmt = gen_fmt(rng, fields, compiled, targetable=tg, own=derive)
             fix_shadowing(c.fmt, fields)
             it.conts = [c]
             add_fmt_preds(it, c, c.fmt, fields, "ok", "")
@@ -739,13 +785,12 @@ def gen_display_item(rng, derive, compiled, defect=None):
             fields = mk_fields(rng, params, compiled, kind == "named", n, min_generic=1 if n else 0,
                                names=common_names if applies else None) if n else []
             c = Cont("V%d" % vi, kind, fields)
-            c_applies = applies
             if own:
                 if n == 0 and kind == "unit" and rng.random() < 0.5:
                     c.fmt = Fmt()
                     c.fmt.lit = rng.choice(["unit", "u {{}}", ""])
                 else:
-                    c.fmt = gen_fmt(rng, fields, compiled, maxph=3)
+                    c.fmt = gen_fmt(rng, fields, compiled, maxph=3, own=derive)
                     fix_shadowing(c.fmt, fields)
                 add_fmt_preds(it, c, c.fmt, fields, "ok", "variant:")
                 c.bounds = user_bounds_for(rng, [(c.fmt, fields)], compiled)
@@ -759,8 +804,8 @@ def gen_display_item(rng, derive, compiled, defect=None):
                 if n == 1 and fields[0].mentions:
                     if compiled and derive not in fields[0].allowed:
                         fields[0] = Fld(fields[0].ident, "T0", {"T0"}, "bare", S_ALL)
-                    add_pred(it, fields[0].ty, FMTPATH + derive, "ok", "variant-delegate", True)
-            conts.append((c, c_applies))
+                    add_bound(it, fields[0].ty, derive, "ok", "variant-delegate")
+            conts.append((c, applies))
         it.conts = [c for c, _ in conts]
         if not any(f.mentions for c in it.conts for f in c.fields):
             return gen_display_item(rng, derive, compiled, defect)
@@ -778,28 +823,23 @@ def gen_display_item(rng, derive, compiled, defect=None):
                         allowed = allowed & c.fields[i].allowed
                     ident = common_names[i] if style == "named" else "_%d" % i
                     pseudo.append(Fld(ident, "?", {"?"}, "pseudo", allowed if compiled else S_ALL))
-                it.shared = gen_fmt(rng, pseudo, compiled, allow_bound=False, variant=("must" if mode == "wrap" else None), maxph=3)
+                it.shared = gen_fmt(rng, pseudo, compiled, allow_bound=False, variant=("must" if mode == "wrap" else None), maxph=3, own=derive)
                 fix_shadowing(it.shared, pseudo)
                 for c in app:
                     add_fmt_preds(it, c, it.shared, c.fields, "ok", "shared-%s:" % mode, fieldmap=list(range(ncommon)))
             it.feat.add("shared-" + mode)
-        if defect == D_BOUND:
+        if defect == D_BOUND_E:
             ps = sorted(set().union(*[f.mentions for c in it.conts for f in c.fields]))
-            if rng.random() < 0.5:
-                it.ebounds = [extra_bound(rng, ps)]
-                for b in it.ebounds:
-                    add_pred(it, b[0], b[1], D_BOUND, "user-bound", "fmt::" in b[1])
-            else:
-                cs = [c for c in it.conts if c.fmt is None and c.fields and any(f.mentions for f in c.fields)]
-                if not cs:
-                    it.ebounds = [extra_bound(rng, ps)]
-                    for b in it.ebounds:
-                        add_pred(it, b[0], b[1], D_BOUND, "user-bound", "fmt::" in b[1])
-                else:
-                    c = rng.choice(cs)
-                    c.bounds = [extra_bound(rng, sorted(set().union(*[f.mentions for f in c.fields])))]
-                    for b in c.bounds:
-                        add_pred(it, b[0], b[1], D_BOUND, "user-bound", "fmt::" in b[1])
+            it.ebounds = [extra_bound(rng, ps)]
+            for b in it.ebounds:
+                add_pred(it, b[0], b[1], D_BOUND_E, "user-bound", "fmt::" in b[1])
+        elif defect == D_BOUND_C:
+            cs = [c for c in it.conts if c.fmt is None and c.fields and any(f.mentions for f in c.fields)]
+            if cs:
+                c = rng.choice(cs)
+                c.bounds = [extra_bound(rng, sorted(set().union(*[f.mentions for f in c.fields])))]
+                for b in c.bounds:
+                    add_pred(it, b[0], b[1], D_BOUND_C, "user-bound", "fmt::" in b[1])
         it.feat.add("enum")
     finish_generics(it, rng)
     return it
@@ -824,7 +864,7 @@ def gen_debug_item(rng, compiled, defect=None):
             continue
         if rng.random() < 0.25:
             tg = [0] if (defect == D_US0 and kind == "named" and vi == 0) else None
-            c.fmt = gen_fmt(rng, fields, compiled, targetable=tg)
+            c.fmt = gen_fmt(rng, fields, compiled, targetable=tg, own="Debug")
             fix_shadowing(c.fmt, fields)
             add_fmt_preds(it, c, c.fmt, fields, "ok", "container:")
             allfm.append((c.fmt, fields))
@@ -854,7 +894,7 @@ def gen_debug_item(rng, compiled, defect=None):
                 add_fmt_preds(it, c, fm, fields, origin, "field:")
                 allfm.append((fm, fields))
             elif f.mentions:
-                add_pred(it, f.ty, FMTPATH + "Debug", "ok", "field-default", True)
+                add_bound(it, f.ty, "Debug", "ok", "field-default")
                 it.feat.add("field-default")
     if not any(f.mentions for c in it.conts for f in c.fields):
         return gen_debug_item(rng, compiled, defect)
@@ -877,7 +917,7 @@ def gen_debug_item(rng, compiled, defect=None):
 def gen_item(rng, compiled, defect=None):
     if defect == D_HOST:
         derive = "Debug"
-    elif defect == D_BOUND:
+    elif defect in (D_BOUND_E, D_BOUND_C):
         derive = rng.choice([d for d in ALL9 if d != "Debug"])
     else:
         derive = rng.choice(ALL9 + ("Display", "Display", "Debug", "Debug", "Debug"))
@@ -903,11 +943,26 @@ def ref_hazard(it):
 
 
 def item_class(it):
-    forms = sorted(set(f.form for c in it.conts for f in c.fields if f.mentions))
     sites = sorted(set(s.split(":")[-1] for e in it.preds.values() for s in e["sites"]))
-    feats = sorted(it.feat)
+    feats = sorted(f for f in it.feat if not f.startswith("t:") and f not in sites)
     d = it.derive if it.derive in ("Display", "Debug", "Pointer") else "NumLike"
-    return (d, "enum:" + it.shared_mode if it.is_enum else "struct", tuple(forms[:3]), tuple(sites), tuple(feats))
+    return (d, "enum:" + it.shared_mode if it.is_enum else "struct", tuple(sites), tuple(feats))
+
+
+def pred_classes(it):
+    """(derive kind, field type form, site, trait kind) of every reference predicate."""
+    d = it.derive if it.derive in ("Display", "Debug", "Pointer") else "NumLike"
+    forms = {}
+    for c in it.conts:
+        for f in c.fields:
+            forms[norm(f.ty)] = f.form
+    out = set()
+    for (lhs, rhs), e in it.preds.items():
+        tr = rhs.rsplit("::", 1)[-1] if e["fmt"] else "user"
+        tk = tr if tr in ("Display", "Debug", "Pointer", "user") else "num"
+        for sfull in e["sites"]:
+            out.add((d, forms.get(lhs, "bound"), sfull.split(":")[-1], tk))
+    return out
 
 
 # ---------------------------------------------------------------------------------------------
@@ -989,7 +1044,7 @@ def l1_worker(args):
         r = rng.random()
         defect = None
         if r < defect_rate:
-            defect = DEFECTS[i % 3]
+            defect = DEFECTS[i % len(DEFECTS)]
         it = gen_item(rng, False, defect)
         items.append((it, render(it, rng, False)))
     return l1_eval(items, "w%d" % idx)
@@ -1006,8 +1061,8 @@ def l1_eval(items, tag):
         return {"error": "expand answered %d of %d (rc=%s, last=%r, %s)" % (len(got), len(items), rc, last, err[-400:])}
     for i, (it, src) in enumerate(items):
         g = got["%s.%d" % (tag, i)]
-        cls = item_class(it)
-        classes.add(cls)
+        classes.add(item_class(it))
+        classes |= pred_classes(it)
         stats["l1_predicates_expected"] += len(it.preds)
         if not any(e["fmt"] for e in it.preds.values()):
             stats["l1_no_bound_expected"] += 1
@@ -1073,6 +1128,8 @@ def field_value(f, inst, k):
         return "Some(leak(%s))" % v0
     if form == "fnptr":
         return "(never::<%s, u8> as fn(%s) -> u8)" % (t0, t0)
+    if form == "fnret":
+        return "(never::<u8, %s> as fn(u8) -> %s)" % (t0, t0)
     if form == "fn2":
         t1 = CANDS[inst[p[1]]][0]
         return "(never::<%s, %s> as fn(%s) -> %s)" % (t0, t1, t0, t1)
@@ -1103,7 +1160,7 @@ def required_traits(it):
     return need
 
 
-def ref_call(fm, fields, binds_ok=True):
+def ref_call(fm, fields):
     """`LIT, ARGS..` for the reference `format!`: same literal, same arguments, and the documented
     dereference for fields named directly in a `{name:p}` placeholder."""
     extra = ["%s = *%s" % (fields[fi].ident, fields[fi].ident) for fi in sorted(set(fm.ptr_direct))]
@@ -1242,10 +1299,10 @@ def make_case(cid, it, rng):
 
 NEG_ITEMS = [
     # (id, kind, items) kind: "must_fail" | known-defect key (must compile according to the property)
-    ("idx1", "must_fail", "#[derive(derive_more::Display)]\n#[display(\"{1}\", _0)]\npub struct S<T0>(pub T0);"),
-    ("idx1n", "must_fail", "#[derive(derive_more::Display)]\n#[display(\"{1:?}\", a)]\npub struct S<T0> { pub a: T0 }"),
-    ("kb_enum", D_BOUND, "#[derive(derive_more::Display)]\n#[display(bound(T0: Tr3))]\npub enum E<T0> { #[display(\"{}\", _0.id3())] V0(T0) }"),
-    ("kb_var", D_BOUND, "#[derive(derive_more::Display)]\n#[display(\"{}\", _0.id3())]\npub enum E<T0> { #[display(bound(T0: Tr3))] V0(T0) }"),
+    ("idx1", "must_fail", "#[derive(derive_more::Display)]\n#[display(\"{1}\", _0)]\n#[display(bound(T0: ::core::fmt::Display))]\npub struct S<T0>(pub T0);"),
+    ("idx1n", "must_fail", "#[derive(derive_more::Display)]\n#[display(\"{1:?}\", a)]\n#[display(bound(T0: ::core::fmt::Debug))]\npub struct S<T0> { pub a: T0 }"),
+    ("kb_enum", D_BOUND_E, "#[derive(derive_more::Display)]\n#[display(bound(T0: Tr3))]\npub enum E<T0> { #[display(\"{}\", _0.id3())] V0(T0) }"),
+    ("kb_var", D_BOUND_C, "#[derive(derive_more::Display)]\n#[display(\"{}\", _0.id3())]\npub enum E<T0> { #[display(bound(T0: Tr3))] V0(T0) }"),
     ("kus0", D_US0, "#[derive(derive_more::Display)]\n#[display(\"{_0}\")]\npub struct S<T0> { pub _0: T0 }"),
     ("kus0d", D_US0, "#[derive(derive_more::Debug)]\n#[debug(\"{_1:?}\")]\npub struct S<T0> { pub _1: Vec<T0> }"),
     ("khost", D_HOST, "#[derive(derive_more::Debug)]\npub struct S<T0> { #[debug(\"{b}\")] pub a: u8, #[debug(skip)] pub b: T0 }"),
@@ -1273,7 +1330,7 @@ def run_neg(ctx):
                 txt = l2.err_text(errs, 2)
                 if c.meta["kind"] == D_REF:
                     precise = "lifetime may not live long enough" in txt
-                elif c.meta["kind"] == D_BOUND:
+                elif c.meta["kind"] in (D_BOUND_E, D_BOUND_C):
                     precise = "E0599" in txt and "id3" in txt
                 else:
                     precise = "E0277" in txt and "`T0`" in txt
@@ -1294,19 +1351,20 @@ def run(ctx):
                 "fill/align/sign/#/0, whitespace before `}`, all 9 traits incl. x?/X?), arguments that are bare fields, `size_of_val(field)`, `field.id3()` (with the user "
                 "bound the docs require), literals and keywords; placed at struct, variant, derive(Debug) field level and as shared enum format (default, wrapping, bare `{_variant}`), "
                 "plus #[debug(skip)], implicit single-field delegation, user bound(...) attributes and where-clauses on the type. "
-                "distinct = distinct (derive kind, struct/enum+shared mode, generic field forms, sites a predicate comes from, literal features) tuples; every case is generic, none is trivial")
+                "distinct = distinct (derive kind, struct/enum + shared-format mode, set of sites the reference predicates come from, set of attribute/literal features) tuples "
+                "plus distinct (derive kind, field type form, site, trait kind) tuples of single reference predicates; every case is generic, none is trivial")
     ctx.assumptions += [
         "the reference predicate set is the rule of display.md/debug.md ('Generic data types', 'Custom trait bounds'): field type : placeholder trait for fields used directly in the interpolation, plus bound(...)",
         "observed predicates that mention no type parameter (e.g. `u8: Display`) cannot make an impl unavailable and are counted, not judged",
         "rt::NoFmt implements no fmt trait; rt::Spy implements all nine; the std side of every impls! comparison is rustc's own answer on the same instantiation",
     ]
     # ---- L1 -----------------------------------------------------------------------------
-    n1 = ctx.pick(20000, 300000)
+    n1 = ctx.pick(40000, 500000)
     nw = common.NCPU * ctx.pick(1, 4)
     per = (n1 + nw - 1) // nw
-    jobs = [(i, per, ctx.seed, 0.06) for i in range(nw)]
+    jobs = [(i, per, ctx.seed, ctx.pick(0.03, 0.01)) for i in range(nw)]
     # ---- L2 generation (parent process, reproducible from ctx.rng) ------------------------
-    n2 = ctx.pick(300, 6000)
+    n2 = ctx.pick(800, 10000)
     cases, l2items = [], []
     for i in range(n2):
         it = gen_item(rng, True)
